@@ -157,13 +157,17 @@ func (k *chk) cmpPad(routine, what string, got []float64, ld, m, n int) {
 
 // cmpSame checks bit-identity of a region with a snapshot (operands that must not change).
 func (k *chk) cmpSame(routine, what string, got, before []float64) {
+	k.cmpSameKind(routine, "touch", what, got, before)
+}
+
+func (k *chk) cmpSameKind(routine, kind, what string, got, before []float64) {
 	if len(got) != len(before) {
-		k.fail(routine, "touch", "%s: length changed", what)
+		k.fail(routine, kind, "%s: length changed", what)
 		return
 	}
 	for i := range got {
 		if math.Float64bits(got[i]) != math.Float64bits(before[i]) {
-			k.fail(routine, "touch", "%s: element %d changed from %v to %v", what, i, before[i], got[i])
+			k.fail(routine, kind, "%s: element %d changed from %v to %v", what, i, before[i], got[i])
 			return
 		}
 	}
